@@ -894,6 +894,14 @@ def rule_TX(ctx, tier):
         rr.ok("update: tip advances only when a block is evicted")
     else:
         rr.fail("update:tip", "TxIndex.tip is written outside the eviction branch (or never)", where=u.span)
+    # `tip` moves only with an eviction: no other TxIndex method may write it (the height of an entry is derived from it)
+    for bid, tb in P.bodies.items():
+        if not bid.startswith("teos::tx_index::TxIndex::<K, V>::") or bid in (u.id, T + "new") or tb.kind != "method":
+            continue
+        tw = [bb for bb in tb.rpo() for s_ in tb.blocks[bb]["s"] if s_["k"] == "assign" and len(s_["d"]) > 1 and s_["d"][-1] == "f:tip"]
+        if tw:
+            rr.fail("tip-written:%s" % shortfn(bid), "`%s` writes TxIndex.tip; only the eviction in `update` may move it (update does not re-advance it while the index refills after a disconnect, so any other adjustment makes every later height permanently wrong)" % shortfn(bid), where=tb.line_of(tw[0]))
+    rr.ok("tip written only by update (eviction) and new")
     f = P.require(T + "is_full")
     ret = ctx.og.local(f, 0)
     from .rulekit import rel_of_term
@@ -952,5 +960,5 @@ def rule_TX(ctx, tier):
         rr.ok("new: size = number of blocks given, tip = given height")
     else:
         rr.fail("new:size", "TxIndex::new does not take its size from the block slice / tip from the height", where=n.span)
-    rr.require_floor(17, "TX instances")
+    rr.require_floor(18, "TX instances")
     return rr
